@@ -45,6 +45,8 @@ class IntAlg:
     inv_sbox = staticmethod(lambda x: INV_SBOX[x])
     @staticmethod
     def mul(x, k): return gmul_int(x, k)
+    @staticmethod
+    def rcon(j): return RCON[j][0]
 
 # ----------------------------------------------------------------------------- round operations, section 5.1 / 5.3
 def sub_bytes(s, A=IntAlg): return [A.sbox(x) for x in s]
@@ -96,7 +98,7 @@ def next_word(w_back, w_prev, i, nk, A=IntAlg):
     if i % nk == 0:
         temp = temp[1:] + temp[:1]                       # RotWord
         temp = [A.sbox(b) for b in temp]                 # SubWord
-        temp = [temp[0] ^ RCON[i // nk - 1][0]] + temp[1:]
+        temp = [temp[0] ^ A.rcon(i // nk - 1)] + temp[1:]
     elif nk > 6 and i % nk == 4:
         temp = [A.sbox(b) for b in temp]
     return [a ^ b for a, b in zip(w_back, temp)]
